@@ -156,6 +156,7 @@ EXT_KINDS = {
     "akrecord": {"awkward.Record", "awkward.highlevel.Record", "ak.Record"},
     "ndarray": {"numpy.ndarray"},
     "npvoid": {"numpy.void"},
+    "sympyexpr": {"sympy.Expr", "sympy.Basic", "sympy.Symbol"},
 }
 
 
